@@ -627,6 +627,7 @@ impl Compiler {
             if let Some(line) = m.imports {
                 for item in line.items {
                     if let Some(mut local) = module.names.get_last(&item.value) {
+                        self.validate_local(&item.value, local, &item.span);
                         local.public = line.public;
                         (self.code_meta.global_references).insert(item.span.clone(), local.index);
                         self.scope.names.insert(item.value, local);
